@@ -21,7 +21,9 @@ MACHINE-CHECKED.  Each numbered clause is checked on the real source as stated i
       membership (resp. G.graph['outputs'], 'operation' in G.nodes[n], G.edges as a set, nx.ancestors, sort_order) and
       no iteration order of a set / graph view reaches the result.  With sorted()'s contract (a function of the SET of
       its elements and their total order) the result is a function of (node set, edge set) - not of insertion order.
-      [bounded: that the result is a topological order, all DAGs <= 5 nodes.]
+      [SMT, all graphs, nbunch=None, reverse=False and reverse=True: on every normal exit the result is a TOPOLOGICAL order of G - the
+      inductive invariant is the post-order fact "every successor of an explored node is explored and was appended before it";
+      bounded only: no spurious NetworkXUnfeasible on a DAG (all DAGs <= 5 nodes); termination is not proved.]
   (5) Global-RNG frame  [syntactic, over the functions the seeded path consists of, fail closed]: the only reference to
       numpy's random module reachable with an integer seed is the SEEDED constructor RandomState(<arg>); get_np_random
       and random_seed are guarded by seed == 'global' / seed is None.  ElfiModel.generate [SMT on the real body] hands
@@ -63,13 +65,15 @@ MANIFEST = {
             'BatchHandler.submit / BatchHandler.compute (seed hand-over, executor cache identity and consistency) are SMT obligations over a '
             'symbolic networkx graph and dict heap; the reads-frame of nx_constant_topological_sort and Executor.get_execution_order, the '
             'global-RNG frame of the seeded path and the cache-access frame are syntactic obligations over the real AST (allow-lists, fail closed); '
-            'the DFS bookkeeping of the sort (result = the node set, each node once) is an SMT contract with three nested loop invariants. '
+            'the explicit-stack DFS of the sort is an SMT contract with three nested loop invariants, for ALL graphs (nbunch=None, reverse=False and True): '
+            'on every normal exit the result lists the node set, each node once, and is TOPOLOGICAL - every edge (u, v) of G has u before v '
+            '(reverse=True: after v); inductive invariant: every successor of an explored node is explored and was appended before it. '
             'The conjunction implies purity by a paper argument that is NOT machine-checked. End-to-end bit-identity under perturbed histories is '
             'the labelled bounded stand-in and the replay vehicle.',
     'note': 'Trusted: pyvc engine, pyvc.nxspec, the syntactic analyses of this module (allow-lists), C15 (get_sub_seed) and C03 (Executor.execute/_run, '
             'other compilers) assumed by name, numpy RandomState(seed) is a function of the seed, user operations draw only from the random_state they are '
             'handed. Not decided: multiprocessing client, purity as one statement. Known finding C02-F14 (random suffixes of private constant names reach '
-            'the execution order when one user name extends another).',
+            'the execution order when one user name extends another). Bounded only: no NetworkXUnfeasible on a DAG; termination of the DFS is not proved.',
     'technique': 'deductive: SMT VCs from the real AST over a symbolic graph + dict heap (pyvc, z3/cvc5), z3 string theory for the name-order obligation, '
                  'syntactic frame obligations over the real AST; bounded stand-in: generated models <= 5 nodes x histories x insertion orders, all DAGs <= 5 nodes',
 }
@@ -1187,9 +1191,14 @@ def dfs_roles(repo=None):
 
 
 class SortDFS(C02Graph):
-    """SMT contract of the explicit-stack DFS (three nested loop invariants): on every normal exit the result lists exactly the node set of G,
-    every node once; G[w] is only asked for nodes of G; pop() only on a non-empty stack.  NOT covered here: that the order is topological and
-    that NetworkXUnfeasible is raised iff G has a cycle (bounded: all small DAGs)."""
+    """SMT contract of the explicit-stack DFS (three nested loop invariants), nbunch=None, reverse=False ('dfs') and reverse=True ('dfs-reverse'):
+    on every normal exit the result lists exactly the node set of G, every node once, and is a TOPOLOGICAL order: every edge (u, v) of G has u
+    before v (reverse=True: after v) - for ALL graphs (hence: a graph with a cycle or a self-loop never returns normally); G[w] is only asked for
+    nodes of G; pop() only on a non-empty stack.
+    Invariant (no transitive closure needed): every successor (edge of G) of an explored node is explored and sits at a smaller index of `order`.
+    Successor loop: as long as new_nodes is empty every entry of sorted(G[w]) looked at so far is explored; at its exit sorted()'s contract (every
+    member of the set occurs in the sorted list - proved as a ghost step from the permutation contract) turns "every entry" into "every successor".
+    NOT covered here: NetworkXUnfeasible is raised ONLY IF G has a cycle (bounded: all small DAGs), termination, a caller-supplied nbunch."""
     target = 'elfi/executor.py::nx_constant_topological_sort'
     label = 'dfs'
     fin = 3
@@ -1387,6 +1396,7 @@ TRUSTED_BASE = ['pyvc engine: proxies, path forking, loop cutting, instrumenter 
                 'C15: get_sub_seed(seed, index) is a function of (seed, index) alone, in [0, high), cache kept within cache_ok (call-pre index >= 0 discharged here)',
                 'C03: Executor.execute/_run run the operations once each in the order of get_execution_order and pass parent outputs by reference; the other compilers/loaders only write the net they are given (assumed by name)',
                 'numpy: RandomState(seed) is a new object whose stream is a function of the seed (sanity-tested); uuid4().hex is 32 lower-case hex digits (sanity-tested)',
+                'networkx: G[w] is the set of successors of w, i.e. the heads of the edges (w, .) of G (sanity-tested); sorted(S) is a permutation of S (every member occurs, sanity-tested)',
                 'python str order = code-point order (sanity-tested); sorted() is stable and returns the elements in non-decreasing KEY order: a function of the SET of elements only when the key is injective on them (no key / identity - a syntactic obligation per sort call; lower/len-style keys are refuted, unknown keys undecided)',
                 'z3 integer encoding of bounded-length strings for the name-order obligation (names of length <= 8)']
 ASSUMPTIONS = ['A-INT, A-LOG', 'user operations draw only from the random_state they are handed and are otherwise deterministic (outside the frame)',
@@ -1399,7 +1409,9 @@ NOT_PROVED = ['"running a sampler": the OWN randomness of the samplers (SMC prop
               'batch-generation path every sampler shares; bounded: seeded Rejection (quick) and SMC (thorough) runs repeat bit-identically',
               'identical results "for the native and multiprocessing clients" (OS processes, pickling): not decidable by contracts; worker = Executor.execute on a faithful pickle copy is assumed',
               'purity as a single statement (hyper-property over two runs): reached only through the per-function contracts plus the paper argument',
-              'nx_constant_topological_sort returns a TOPOLOGICAL order: bounded only (all DAGs <= 4/5 nodes); proved: reads-frame, result lists exactly the node set, each node once',
+              'nx_constant_topological_sort: NetworkXUnfeasible is raised ONLY on graphs with a cycle (no spurious raise on a DAG): bounded only (all DAGs <= 4/5 nodes); termination of the DFS: not proved; '
+              'a caller-supplied nbunch: not under contract (get_execution_order passes none). Proved (SMT, all graphs, reverse=False and reverse=True): reads-frame, on every normal exit '
+              'the result lists exactly the node set, each node once, in a TOPOLOGICAL order (every edge (u, v): u before v; reverse=True: u after v) - hence no normal exit on a graph with a cycle',
               'Executor.get_execution_order body (miss path): C03; here only its reads-frame, cache-access frame and the cache-hit lemma',
               'two private constants of the SAME owner change places when suffixes are re-drawn: harmless by a paper argument (both are parent-less with the single child), exercised by the bounded stand-in']
 
@@ -1421,6 +1433,9 @@ def sanity():
     G = nx.DiGraph(outputs={'x'})
     K = nx.DiGraph(G)
     out.append(('nx.DiGraph(G) shares graph attribute VALUES (the outputs set)', K.graph is not G.graph and K.graph['outputs'] is G.graph['outputs']))
+    D = nx.DiGraph([('a', 'c'), ('a', 'b'), ('d', 'a')])
+    out.append(('G[w] iterates over exactly the successors of w (the heads of the edges (w, .)); sorted() returns every member once', sorted(D['a']) == ['b', 'c'] and sorted(D['c']) == []
+                and set(D['a']) == {v for (u, v) in D.edges if u == 'a'} and D.is_directed()))
     return out
 
 
